@@ -2,7 +2,7 @@ SPECIFICATION Spec
 CONSTANTS
   Callers <- mcCallers
   CallChoices <- mcCallChoices
-  InitChoices <- mcInitChoices
+  InitChoices <- anyInitChoices
   LatePool <- mcLatePool
   FirstMatch = FALSE
   RT = FALSE
